@@ -21,6 +21,7 @@ from vlib import core, c02_orbit, c07_gen as g
 TARGETS = ["Model/C07_Pre.vo", "Props/C07.vo"]
 NSHARD = 16
 ALL_STYLES = list(range(9))
+EXACT_STYLES = [0, 1, 3, 4, 5, 6, 7]        # without the truncated decimals 0.333333 / 0.33333
 
 
 # --------------------------------------------------------------------------------------------- generation
@@ -79,7 +80,7 @@ def make_crystal(si, ops, rng, thorough=False):
     return {"si": si, "cell": cell, "sites": sites, "adp_type_column": rng.random() < 0.6}
 
 
-def spellings(crystal, sg_meta, rng, full):
+def spellings(crystal, sg_meta, rng, full, nrand=1):
     """[(name, spelling dict, relation to the base)] ; relation: 'same' | 'shuffled'"""
     nops = sg_meta["nops"]
     nsite_cols = 2 + 3 + (1 if any(s["adp"] is not None for s in crystal["sites"]) else 0) + (1 if crystal["adp_type_column"] else 0) + 1
@@ -94,7 +95,8 @@ def spellings(crystal, sg_meta, rng, full):
     for k in range(1, 9):
         pool.append(("op-style-%d" % k, {"op_style": k}, "same"))
     order = perm(nops)
-    pool.append(("op-shuffled", {"op_order": order, "op_style": rng.choice(ALL_STYLES)}, "shuffled"))
+    # a list in another order than the table's is used literally by the parser, so only exact spellings are shuffled
+    pool.append(("op-shuffled", {"op_order": order, "op_style": rng.choice(EXACT_STYLES)}, "shuffled"))
     pool.append(("op-item", {"op_item": 0}, "same"))
     pool.append(("number", {"sym": "number", "num_text": str(sg_meta["number"]), "num_item": rng.randrange(2)}, "same"))
     if sg_meta["short_unique"]:
@@ -123,7 +125,7 @@ def spellings(crystal, sg_meta, rng, full):
     pool.append(("combo", combo, "same"))
     if full:
         return pool
-    return [pool[rng.randrange(len(pool))]]
+    return [pool[rng.randrange(len(pool))] for _ in range(nrand)]
 
 
 # --------------------------------------------------------------------------------------------- comparison
@@ -199,10 +201,32 @@ def judge_oracle(crystal, ops, order, impl, L):
     return bad
 
 
+def ser_crystal(c):
+    def fr(v):
+        return "%d/%d" % (F(v).numerator, F(v).denominator)
+    sites = []
+    for s in c["sites"]:
+        adp = None
+        if s["adp"] is not None:
+            adp = [s["adp"][0], fr(s["adp"][1]) if s["adp"][0] == "iso" else [[fr(v) for v in row] for row in s["adp"][1]]]
+        sites.append({"label": s["label"], "symbol": s["symbol"], "x": [fr(v) for v in s["x"]], "occ": fr(s["occ"]), "adp": adp})
+    return {"si": c["si"], "cell": list(c["cell"]), "sites": sites, "adp_type_column": c["adp_type_column"]}
+
+
+def deser_crystal(d):
+    sites = []
+    for s in d["sites"]:
+        adp = None
+        if s["adp"] is not None:
+            adp = (s["adp"][0], F(s["adp"][1]) if s["adp"][0] == "iso" else [[F(v) for v in row] for row in s["adp"][1]])
+        sites.append({"label": s["label"], "symbol": s["symbol"], "x": tuple(F(v) for v in s["x"]), "occ": F(s["occ"]), "adp": adp})
+    return {"si": d["si"], "cell": tuple(d["cell"]), "sites": sites, "adp_type_column": d["adp_type_column"]}
+
+
 # --------------------------------------------------------------------------------------------- worker
 def work_setting(args):
     """All CIFs of one setting: build, parse with the real code, judge against the oracle and across spellings."""
-    si, seed, full, thorough, meta = args
+    si, seed, full, thorough, meta, nrand = args
     from diffpy.structure.spacegroups import SpaceGroupList
     rng = random.Random(seed)
     sg = SpaceGroupList[si]
@@ -219,16 +243,19 @@ def work_setting(args):
     L = g.lattice(crystal["cell"])
     cases = []
     base_sp = {"sym": "ops", "op_style": 0, "op_item": 1}
-    todo = [("base", base_sp, "same")] + spellings(crystal, meta, rng, full)
+    todo = [("base", base_sp, "same")] + spellings(crystal, meta, rng, full, nrand)
     base_impl = None
+    base_text = None
     sizes = None
+    scr = ser_crystal(crystal)
     for name, sp, rel in todo:
         spx = dict(base_sp)
         spx.update(sp)
         text, blk = g.build(crystal, ops12, spx, rng)
         impl = g.run_impl(text)
-        rec = {"si": si, "name": name, "rel": rel, "text": text, "blk": blk, "impl": impl, "problems": [], "sp": {k: v for k, v in spx.items() if k not in ("op_order",)}}
         order = spx.get("op_order") if "ops" in spx["sym"] else None
+        rec = {"si": si, "name": name, "rel": rel, "text": text, "blk": blk, "impl": impl, "problems": [], "sp": {k: v for k, v in spx.items() if k not in ("op_order",)},
+               "replay": {"crystal": scr, "op_order": order, "rel": rel, "base_cif": base_text}}
         if impl["status"] != "ok":
             rec["problems"].append(("parse", "the parser rejects the file: %s %s" % (impl["status"], impl.get("msg", ""))))
         else:
@@ -242,6 +269,7 @@ def work_setting(args):
                 rec["problems"].append(("spacegroup", "parser.spacegroup is #%s with %s operations, expected #%d" % (impl["sg_number"], impl["sg_nops"], sg.number)))
             if name == "base":
                 base_impl = impl
+                base_text = text
                 exp = g.expected(crystal, ops)
                 sizes = []
                 for s in crystal["sites"]:
@@ -350,7 +378,7 @@ def eval_model(ctx, blocks):
     return res, fails
 
 
-def cmp_model(model, impl):
+def cmp_model(model, impl, tolp=g.TOL_POS):
     """Model result vs parser result.  None when they agree."""
     ms, ims = model["status"], impl["status"]
     if ms == "unsupported":
@@ -366,7 +394,7 @@ def cmp_model(model, impl):
                                                                   "is" if impl["sg_tab_index"] is not None else "is not")
     if model["cell"] and any(abs(float(a) - b) > 1e-9 for a, b in zip(model["cell"], impl["cell"])):
         return "cell %s vs %s" % ([float(v) for v in model["cell"]], impl["cell"])
-    return cmp_atoms(model["atoms"], impl["atoms"])
+    return cmp_atoms(model["atoms"], impl["atoms"], tolp=tolp)
 
 
 # --------------------------------------------------------------------------------------------- the check
@@ -387,7 +415,7 @@ def run(ctx):
     thorough = ctx.tier == "thorough"
     uniq = unique_names()
     n = len(SpaceGroupList)
-    full_set = set(range(n)) if thorough else set(rng.sample(range(n), 36))
+    full_set = set(range(n)) if thorough else set(rng.sample(range(n), 14))
     reps = 2 if thorough else 1
     tasks = []
     for rep in range(reps):
@@ -395,7 +423,8 @@ def run(ctx):
             sg = SpaceGroupList[si]
             meta = {"number": sg.number, "short": sg.short_name, "pdb": sg.pdb_name, "nops": len(sg.symop_list),
                     "short_unique": uniq[si][0], "pdb_unique": uniq[si][1]}
-            tasks.append((si, rng.getrandbits(48), si in full_set, thorough and rep == 1, meta))
+            # thorough: every setting with every spelling once, then again on strata found by the full search with 3 random spellings
+            tasks.append((si, rng.getrandbits(48), (si in full_set) and rep == 0, thorough and rep == 1, meta, 3 if thorough else 1))
     probes = probe_cifs(rng)
     with ProcessPoolExecutor(min(core.NPROC, 16)) as ex:
         results = list(ex.map(work_setting, tasks, chunksize=4))
@@ -445,7 +474,7 @@ def run(ctx):
             k += 1
             if m is None:
                 continue
-            d = cmp_model(m, r)
+            d = cmp_model(m, r, tolp=1.0 / g.GRID)     # the model reports positions on its grid; a misplaced atom is off the grid
             ctx.count(("model-probe", key))
             if d and d != "skip":
                 pdiffs.append((key, d))
@@ -470,7 +499,8 @@ def run(ctx):
             nviol += 1
             sgx = SpaceGroupList[c["si"]]
             ctx.violation("setting #%d (%s), spelling %s: %s: %s" % (sgx.number, sgx.short_name, c["name"], clause, msg),
-                          {"kind": "cif", "setting": sgx.number, "table_index": c["si"], "spelling": c["name"], "clause": clause, "cif": c["text"]},
+                          {"kind": "cif", "setting": sgx.number, "table_index": c["si"], "spelling": c["name"], "clause": clause, "cif": c["text"],
+                           "judge": c["replay"]},
                           key="%s:%s:sg%d" % (clause, c["name"], sgx.number))
     for (kind, key, ta, tb, ba, bb), (ra, rb) in zip(probes, probe_impl):
         ctx.count(("probe", key))
@@ -510,5 +540,30 @@ def replay(ctx, case):
         if msg:
             ctx.violation(msg, c, key=case.get("key"))
     else:
-        ctx.log("replay of a generated case: parse result printed above; run the full check to judge it against the oracle")
-        ctx.obligation("replay", ra["status"] == "ok", ra.get("msg", ""))
+        ctx.obligation("replay", True)
+        j = c.get("judge")
+        if ra["status"] != "ok" or not j:
+            if ra["status"] != "ok":
+                ctx.violation("the parser rejects the file: %s %s" % (ra["status"], ra.get("msg", "")), c, key=case.get("key"))
+            return
+        from diffpy.structure.spacegroups import SpaceGroupList
+        crystal = deser_crystal(j["crystal"])
+        sg = SpaceGroupList[crystal["si"]]
+        ops = c02_orbit.exact_ops(sg)
+        probs = judge_oracle(crystal, ops, j["op_order"], ra, g.lattice(crystal["cell"]))
+        if j["op_order"] is None and ra["sg_tab_index"] != crystal["si"]:
+            probs.append(("spacegroup", "parser.spacegroup is #%s, the file describes #%s" % (ra["sg_number"], sg.number)))
+        if j.get("base_cif"):
+            rb = g.run_impl(j["base_cif"])
+            if rb["status"] == "ok":
+                if j["rel"] == "same":
+                    d = cmp_atoms(rb["atoms"], ra["atoms"])
+                else:
+                    exp = g.expected(crystal, ops)
+                    sizes = [sum(1 for e in exp if e["site"] == s["label"]) for s in crystal["sites"]]
+                    d = None if canon_sites(rb["atoms"], sizes) == canon_sites(ra["atoms"], sizes) else "the sets of atoms per site differ"
+                if d:
+                    probs.append(("spelling", "this spelling gives another structure than the base spelling: %s" % d))
+        for clause, msg in probs[:3]:
+            ctx.violation("%s: %s" % (clause, msg), c, key=case.get("key"))
+        ctx.log("replay judged against the oracle: %d problem(s)" % len(probs))
